@@ -18,6 +18,10 @@ def genL4 (v6 : Bool) : G L4 := do
     let p ← pick [2, 50, 51, 89, 132, 253]
     pure (.other p (← bytesOf (← range 0 12)))
 
+def genLabels : G (List (Nat × Nat)) := do
+  let n ← range 1 4
+  listOf n (do pure (← range 16 (2 ^ 20 - 1), ← bitsVal 8))
+
 mutual
 partial def genIP (depth : Nat) : G IP := do
   let v6 ← bool
@@ -36,15 +40,12 @@ partial def genPayload (depth : Nat) (v6 : Bool) : G Payload := do
   let k ← below 10
   if depth > 0 ∧ k = 0 then do
     let inner ← genIP (depth - 1)
-    pure (.gre (.ip inner))
+    -- GRE carries IP directly or an MPLS stack (RFC 4023) in front of it
+    if (← chance 1 3) then pure (.gre (.mpls (← genLabels) inner)) else pure (.gre (.ip inner))
   else if depth > 0 ∧ k = 1 then do
     pure (.ipip (← genIP (depth - 1)))
   else do pure (.l4 (← genL4 v6))
 end
-
-def genLabels : G (List (Nat × Nat)) := do
-  let n ← range 1 4
-  listOf n (do pure (← range 16 (2 ^ 20 - 1), ← bitsVal 8))
 
 def genFrame : G Frame := do
   let nv ← match (← below 6) with | 0 => pure 1 | 1 => pure 2 | _ => pure 0
